@@ -56,6 +56,7 @@ type WorldSpec struct {
 	Recs  []RecSpec `json:"recs"`
 	Sizes []string  `json:"sizes"` // page sizes to walk with ("" = parameter omitted)
 	Pages int       `json:"pages"` // walk pages 0..min(totalPages, Pages) for every size
+	Batch int       `json:"batch,omitempty"` // ≥ 2: also post groups of this many listed entries in ONE request
 }
 
 type Viol struct {
@@ -216,20 +217,54 @@ func (w *world) list(q url.Values) (code int, pg page.Page, es []entry, err erro
 	return code, lr.Page, es, nil
 }
 
-// post sends {"ips":[entry]} to the real ReleaseIPs handler; returns http code and whether the ip is reported unreleased.
-func (w *world) post(raw json.RawMessage) (code int, unreleased bool, err error) {
-	body := append(append([]byte(`{"ips":[`), raw...), []byte(`]}`)...)
+// postMany sends {"ips":[entries...]} (ONE request) to the real ReleaseIPs handler; returns the http code and the
+// response's unreleased list.
+func (w *world) postMany(raws []json.RawMessage) (code int, unreleased []string, err error) {
+	body := []byte(`{"ips":[`)
+	for i, raw := range raws {
+		if i > 0 {
+			body = append(body, ',')
+		}
+		body = append(body, raw...)
+	}
+	body = append(body, []byte(`]}`)...)
 	req := httptest.NewRequest("POST", "/v1/ip", bytes.NewReader(body))
 	req.Header.Set("Content-Type", "application/json")
 	rec := httptest.NewRecorder()
 	resp := restful.NewResponse(rec)
 	resp.SetRequestAccepts("application/json")
 	if o := hx.Guard(20*time.Second, func() { w.ctl.ReleaseIPs(restful.NewRequest(req), resp) }); o != "ok" {
-		return 0, false, fmt.Errorf("ReleaseIPs: %s", o)
+		return 0, nil, fmt.Errorf("ReleaseIPs: %s", o)
 	}
 	var rr api.ReleaseIPResp
 	_ = json.Unmarshal(rec.Body.Bytes(), &rr)
-	return rec.Code, len(rr.Unreleased) > 0, nil
+	return rec.Code, rr.Unreleased, nil
+}
+
+// post: a request carrying a single entry.
+func (w *world) post(raw json.RawMessage) (code int, unreleased bool, err error) {
+	code, un, err := w.postMany([]json.RawMessage{raw})
+	return code, len(un) > 0, err
+}
+
+// dumpLine: the allocated records "dump:<ipnum>=<key>,…" sorted by ip, as the driver's `dump` prints them.
+func (w *world) dumpLine() string {
+	type kv struct {
+		n uint32
+		k string
+	}
+	var kvs []kv
+	for ip, k := range w.dump() {
+		if k != "" {
+			kvs = append(kvs, kv{ipNum(ip), k})
+		}
+	}
+	sort.Slice(kvs, func(i, j int) bool { return kvs[i].n < kvs[j].n })
+	var parts []string
+	for _, x := range kvs {
+		parts = append(parts, fmt.Sprintf("%d%s", x.n, Enc(x.k)))
+	}
+	return "dump:" + strings.Join(parts, ",")
 }
 
 func (w *world) waitLister(ns, name string, present bool) bool {
@@ -256,12 +291,15 @@ func str(m map[string]interface{}, k string) string {
 	return s
 }
 
-func releaseLine(raw json.RawMessage, inLister bool) string {
+// entryTokens: one posted entry as the driver reads it: ip =appType =ns =app =pod =pool inLister running
+func entryTokens(raw json.RawMessage, inLister bool) string {
 	var m map[string]interface{}
 	_ = json.Unmarshal(raw, &m)
-	return fmt.Sprintf("release %d %s %s %s %s %s %v %v", ipNum(str(m, "ip")), Enc(str(m, "appType")), Enc(str(m, "namespace")),
+	return fmt.Sprintf("%d %s %s %s %s %s %v %v", ipNum(str(m, "ip")), Enc(str(m, "appType")), Enc(str(m, "namespace")),
 		Enc(str(m, "appName")), Enc(str(m, "podName")), Enc(str(m, "poolName")), inLister, inLister)
 }
+
+func releaseLine(raw json.RawMessage, inLister bool) string { return "release " + entryTokens(raw, inLister) }
 
 func diffMaps(a, b map[string]string) []string {
 	var d []string
@@ -592,6 +630,161 @@ func RunWorld(spec WorldSpec, rep *hx.Report) (res WorldResult) {
 		emit(fmt.Sprintf("alloc %d %s", r.ipnum, Enc(r.key)), "ok")
 		return true
 	}
+	// ---- requests carrying several entries: exactly the posted owners' ips are released, nothing else changes,
+	// and the response's unreleased list agrees with the final dump
+	if spec.Batch >= 2 {
+		var cands, lives []*rec
+		for _, r := range order {
+			if _, ok := entryOf[r.ip]; !ok {
+				continue
+			}
+			if r.live {
+				lives = append(lives, r)
+			} else if r.kindsWF && r.feature() == "" {
+				cands = append(cands, r)
+			}
+		}
+		type item struct {
+			raw   json.RawMessage
+			owner *rec // non-nil: the verbatim listed entry of this record (or it with the statefulset app type left out)
+		}
+		ver := func(r *rec) item { return item{entryOf[r.ip].raw, r} }
+		alt := func(r *rec, f func(m map[string]interface{})) item { return item{mutate(entryOf[r.ip].raw, f), nil} }
+		runBatch := func(name string, items []item) bool {
+			before := w.dump()
+			var raws []json.RawMessage
+			var toks []string
+			expect := map[string]*rec{}
+			posted := map[string]bool{}
+			onlyOwner := map[string]bool{}
+			for _, it := range items {
+				var m map[string]interface{}
+				_ = json.Unmarshal(it.raw, &m)
+				ip := str(m, "ip")
+				raws = append(raws, it.raw)
+				toks = append(toks, entryTokens(it.raw, livePods[str(m, "namespace")+"/"+str(m, "podName")]))
+				if _, seen := posted[ip]; !seen {
+					onlyOwner[ip] = true
+				}
+				posted[ip] = true
+				if it.owner != nil {
+					expect[ip] = it.owner
+				} else {
+					onlyOwner[ip] = false
+				}
+			}
+			code, unrel, err := w.postMany(raws)
+			if err != nil {
+				res.Err = err.Error()
+				return false
+			}
+			res.Posts++
+			rep.Hit("world.batch." + name)
+			after := w.dump()
+			inUnrel := map[string]bool{}
+			var nums []string
+			for _, ip := range unrel {
+				inUnrel[ip] = true
+				nums = append(nums, strconv.FormatUint(uint64(ipNum(ip)), 10))
+				if !posted[ip] {
+					viol("batch-unreleased-inconsistent:"+name, fmt.Sprintf("unreleased lists %s which was not posted", ip))
+				}
+			}
+			emit(fmt.Sprintf("request %d %s", len(items), strings.Join(toks, " ")), "unreleased:"+strings.Join(nums, ","))
+			emit("dump", w.dumpLine())
+			desc := fmt.Sprintf("one POST with %d entries (%s), http %d, unreleased %v", len(items), name, code, unrel)
+			for ip, r := range expect {
+				if before[ip] != "" && after[ip] != "" {
+					viol("batch-entry-not-released:"+name, fmt.Sprintf("%s: the listed entry of %s (key %q) was in the request but the ip is still allocated", desc, ip, r.key))
+				}
+			}
+			for _, ip := range diffMaps(before, after) {
+				if expect[ip] != nil {
+					continue
+				}
+				if posted[ip] {
+					viol("batch-foreign-release:"+name, fmt.Sprintf("%s: %s changed (%q -> %q) though no entry of the request names its owner", desc, ip, before[ip], after[ip]))
+				} else {
+					viol("collateral-change", fmt.Sprintf("%s: record of %s, not named in the request, changed", desc, ip))
+				}
+			}
+			for ip := range posted {
+				if after[ip] != "" && !inUnrel[ip] {
+					viol("batch-unreleased-inconsistent:"+name, fmt.Sprintf("%s: %s is still allocated (%q) but not reported unreleased", desc, ip, after[ip]))
+				}
+				if inUnrel[ip] && onlyOwner[ip] && after[ip] == "" {
+					viol("batch-unreleased-inconsistent:"+name, fmt.Sprintf("%s: %s was released by its own entry but is reported unreleased", desc, ip))
+				}
+			}
+			if (code == 202) != (len(unrel) > 0) || (code != 200 && code != 202) {
+				viol("batch-unreleased-inconsistent:"+name, desc+": http code and unreleased list disagree")
+			}
+			for ip, r := range expect {
+				if before[ip] != "" && after[ip] == "" {
+					if !realloc(r) {
+						return false
+					}
+				}
+			}
+			return res.Err == ""
+		}
+		// one-field variants that change the owner the entry names (a bare pool prefix entry names its pool only)
+		nsx := func(r *rec) item {
+			if r.tr.app == "" {
+				return alt(r, func(m map[string]interface{}) { m["poolName"] = str(m, "poolName") + "x" })
+			}
+			return alt(r, func(m map[string]interface{}) { m["namespace"] = str(m, "namespace") + "x" })
+		}
+		appx := func(r *rec) item {
+			if r.tr.app == "" {
+				return alt(r, func(m map[string]interface{}) { m["poolName"] = str(m, "poolName") + "y" })
+			}
+			return alt(r, func(m map[string]interface{}) { m["appName"] = str(m, "appName") + "x" })
+		}
+		groups := 0
+		for g := 0; g+1 < len(cands) && groups < 3; g += spec.Batch {
+			end := g + spec.Batch
+			if end > len(cands) {
+				end = len(cands)
+			}
+			grp := cands[g:end]
+			if len(grp) < 2 {
+				break
+			}
+			groups++
+			var all, rev []item
+			for _, r := range grp {
+				all = append(all, ver(r))
+				rev = append([]item{ver(r)}, rev...)
+			}
+			if !runBatch("all", all) || !runBatch("reversed", rev) {
+				return
+			}
+			mixed := []item{ver(grp[0]), nsx(grp[1])}
+			for _, r := range grp[2:] {
+				mixed = append(mixed, ver(r))
+			}
+			if grp[0].key != grp[1].key {
+				mixed = append(mixed, alt(grp[0], func(m map[string]interface{}) { m["ip"] = grp[1].ip }))
+			}
+			if len(lives) > 0 {
+				mixed = append(mixed, item{entryOf[lives[groups%len(lives)].ip].raw, nil})
+			}
+			if !runBatch("mixed", mixed) {
+				return
+			}
+			if !runBatch("duplicates", []item{ver(grp[0]), ver(grp[0]), ver(grp[1]), appx(grp[0])}) {
+				return
+			}
+			last := ver(grp[len(grp)-1])
+			if entryOf[last.owner.ip].f.AppType == "statefulset" {
+				last.raw = mutate(last.raw, func(m map[string]interface{}) { delete(m, "appType") })
+			}
+			if !runBatch("variant-first", []item{nsx(grp[0]), ver(grp[0]), appx(grp[1]), last}) {
+				return
+			}
+		}
+	}
 	for idx, r := range order {
 		e, ok := entryOf[r.ip]
 		if !ok {
@@ -690,22 +883,6 @@ func RunWorld(spec WorldSpec, rep *hx.Report) (res WorldResult) {
 		}
 	}
 	// ---- final state, both sides
-	var parts []string
-	d := w.dump()
-	type kv struct {
-		n uint32
-		k string
-	}
-	var kvs []kv
-	for ip, k := range d {
-		if k != "" {
-			kvs = append(kvs, kv{ipNum(ip), k})
-		}
-	}
-	sort.Slice(kvs, func(i, j int) bool { return kvs[i].n < kvs[j].n })
-	for _, x := range kvs {
-		parts = append(parts, fmt.Sprintf("%d%s", x.n, Enc(x.k)))
-	}
-	emit("dump", "dump:"+strings.Join(parts, ","))
+	emit("dump", w.dumpLine())
 	return
 }
